@@ -21,7 +21,6 @@ THEOREMS = [
     'Px.Conn.C01_flush_fifo', 'Px.Relay.C01_tunnel_down', 'Px.Relay.C01_tunnel_up',
     'Px.Relay.C01_http_down', 'Px.Relay.C01_only_injection', 'Px.Relay.C01_pending_is_suffix',
     'Px.Conn.C01_progress', 'Px.Relay.C01_progress_tick', 'Px.Relay.C01_no_empty_elements',
-    'Px.Relay.C01_progress_bytes',
 ]
 RULE = ('flush: op sequences (queue sizes 0..140 KiB straddling max_send, every send outcome) on the real '
         'TcpClientConnection/TcpServerConnection vs Conn.flush; relay: tick schedules (readiness subsets, every '
@@ -647,22 +646,22 @@ def systematic(depth, menu=None, setup='tunnel', mx=2):
 
 def generate(rng, tier):
     big = tier == 'thorough'
-    for _ in range(1500 if not big else 12000):
+    for _ in range(4000 if not big else 30000):
         yield gen_flush_case(rng, big=False)
     for _ in range(12 if not big else 120):
         yield gen_flush_case(rng, big=True)
-    for c in systematic(2 if not big else 3):
+    for c in systematic(3):
+        yield c
+    for c in systematic(2, setup='http', mx=None):
         yield c
     if big:
-        for c in systematic(2, setup='http', mx=None):
+        for c in systematic(4, mx=1):
             yield c
-        # longer systematic schedules over the failure-free part of the alphabet
-        for c in systematic(4, menu=MENU[:9], mx=1):
-            if rng.random() < 0.35:
-                yield c
-    for _ in range(700 if not big else 9000):
+        for c in systematic(3, setup='http', mx=3):
+            yield c
+    for _ in range(2500 if not big else 40000):
         yield gen_relay_case(rng, 'tunnel')
-    for _ in range(500 if not big else 6000):
+    for _ in range(1500 if not big else 25000):
         yield gen_relay_case(rng, 'http')
     for _ in range(6 if not big else 40):
         yield gen_relay_case(rng, 'tunnel', big=True)
